@@ -54,7 +54,8 @@
 (***************************************************************************)
 EXTENDS Integers, Sequences, FiniteSets, TLC, SequencesExt
 CONSTANTS Threads, MaxLoads, Dev,
-          FlagSets,     \* the flag words tried: subsets of {"TSYNC","LOG","BAD"}
+          FlagSets,     \* the flag words tried: subsets of {"TSYNC","LOG","BAD","SPEC"} (BAD: a bit the kernel does not know;
+                        \* SPEC: SECCOMP_FILTER_FLAG_SPEC_ALLOW, which the kernel accepts and which changes nothing modelled here)
           Pols,         \* subset of {"valid","invalid","oversize","allowall"} (allowall: a valid policy that denies nothing;
                         \* to the kernel and to LoadFilter it is a filter like any other)
           EnvAnywhere,  \* TRUE: environment steps at every pc; FALSE: only
